@@ -33,8 +33,11 @@ PROPS = {
     },
     'C05': {
         'lean': ['Netpol.Properties.C05'],
-        'families': [('list', 1500, 60000)],
-        'rule': 'as C01; P is a direct well-formedness checker over the returned []Peer2PeerConnection and []Peer',
+        'families': [('list', 1500, 60000), ('exposure', 150, 6000)],
+        'accept_props': ['C05'],
+        'shard_min': 50,
+        'rule': 'as C01; P is a direct well-formedness checker over the returned []Peer2PeerConnection and []Peer; exposure family: the same checker on the '
+                'report produced with the exposure analysis, and on the connection of every exposure entry (ranges canonical, the full set never as three ranges)',
         'assumptions': ['World.Valid inputs'],
     },
     'C15': {
